@@ -353,7 +353,7 @@ def rule_R3(ctx, f):
         ctx.saw(b)
         ctx.ob(rid, "%s|field" % strip_generics(b.path).replace("prometheus::proto_ext::", ""), touched == {want},
                "%s on %s must touch exactly the field `%s` (touches %s)" % (name, self_ty.split("::")[-1], want, sorted(touched)), site=b.raw["span"]["at"])
-    ctx.floor(rid, "hand-written proto_ext accessors", n, 20)
+    ctx.floor(rid, "hand-written proto_ext accessors", n, 14)
     # from_label / from_gauge constructors
     for fn, fld in (("from_label", "label"), ("from_gauge", "gauge")):
         for b in f.find(re.compile(r"^prometheus::proto_ext::.*" + fn + "$")):
